@@ -49,6 +49,24 @@ TEXT = {
          "Each script run 2-3 times with ASLR on, different environment and cwd; byte-identical stdout and exit status.", "Observation only; a behavioural specification cannot explain nondeterminism.", "6/C23"),
  "C26": ("model_checking", "Lin.tla: Farkas combination computed by TLC on every hooked LA conflict",
          "Coefficients positive, all leaves cancel, constant absurd (integer tightening accounted for).", "Small coefficients only (32-bit TLC arithmetic).", "6/C26"),
+ "C14": ("model_checking", "Terms!Eval on a grid enumerated by TLC; TermStore.tla design model; Terms_Trace over terms_driver",
+         "Every constructor call of Logic/ArithLogic (Boolean connectives, ite, =, distinct, +, -, *, /, div, mod, comparisons, select, store, UF) with the returned term; "
+         "TLC searches a grid of interpretations (variables, two interpretations of each function symbol, array values) for a point where result and op(args) differ.",
+         "Grid, not all interpretations; a found difference is a concrete counterexample.", "6/C14"),
+ "C15": ("model_checking", "BigInt.tla arithmetic in TLC over rat_driver traces (cross-multiplication, Bezout and quotient certificates)",
+         "Operation sequences on FastRational around the word boundaries; exactness, canonical form, fits-word => word valid, equal values => equal hash/representation.",
+         "Decimal-to-limb conversion by the harness is trusted; certificates are verified, not trusted.", "6/C15"),
+ "C22": ("model_checking", "TSolver.tla guards with the kernel as consistency oracle (model evaluation / Fourier-Motzkin + congruence-closure refutation); behaviours of MC_TSolver replayed on the real solvers",
+         "declare/assert/backtrack/check sequences on LA, EUF and difference-logic solvers through TSolverHandler; verdict memo keyed by the literal set.",
+         "Arrays and UF+LA combinations are not driven (they need the preprocessing of the theory); see DESIGN.", "6/C22"),
+ "C24": ("model_checking", "SharedPool.tla (all interleavings of 2 threads under three disciplines) + concurrent executions compared with solo runs by Script_Trace, ThreadSanitizer observed",
+         "2-8 instances in concurrent threads, coefficients beyond 2^64; answers must equal the solo answers; TSan reports are violations.",
+         "The data-race clause is observed by TSan on the executions, not modelled.", "6/C24"),
+ "C25": ("model_checking", "Stop.tla (StopSafe, termination under fairness) + stop injected at every poll point of check(), Script_Trace judges the answer",
+         "local and global stop at every poll point 1..K of small instances, plus requests from a second thread under TSan.",
+         "Poll points are those of CoreSMTSolver::okContinue.", "6/C25"),
+ "C28": ("model_checking", "TermStore.tla (Injective, SubtermsFirst, CommutativeShared checked exhaustively) + the same monitors over observed PTRef identities",
+         "Constructor call sequences with repeated and permuted calls; identity is a function of the call, injective w.r.t. structure, larger than the arguments' identities.", "", "6/C28"),
  "C29": ("model_checking", "Script.tla: reject or an answer the kernel does not refute, plus memo against the embedding logic",
          "Out-of-fragment scripts under difference logics and non-linear products.", "", "6/C29"),
  "C30": ("model_checking", "Script_Trace time-out event has no matching action (C30 tag); CDCLT termination at design level",
